@@ -12,6 +12,27 @@ def run(ctx):
     shapes.write(ctx, repo, ["argrewrite", "optload", "optcast", "compiler", "pass", "visitor"])
     ctx.compile_dyn(["Gen_Shapes", "Props_C14"])
     progs = c01.gen_programs(ctx, 120 if ctx.tier == "quick" else 2500)
+    # every language feature, not only the scalar core: vector / matrix programs (element, member and swizzle accesses after a store are what
+    # the optimiser rewires) and the store/load grid of C02; for these only the well-formedness of the dumped IR is checked (no lowering model)
+    import genvec
+    from props import c02
+    extra = []
+    vg = genvec.VGen(ctx.rng)
+    for k in range(40 if ctx.tier == "quick" else 800):
+        vg.o["mats"] = k % 3 != 0
+        m, params, globs, ret = vg.program()
+        text, _ = nslgen.render(m, "canonical", ctx.rng)
+        extra.append((None, [], text))
+    for name, m in c02.targeted(ctx.rng):
+        text, _ = nslgen.render(m, "canonical", ctx.rng)
+        extra.append((None, [], text))
+    for src in ("export function f(float4 p) -> float { float4 v = p; return v.x; }", "export function f(float4 p) -> float2 { float4 v = p; return v.zx; }",
+                "export function f(float3x3 p) -> float { float3x3 q = p; return q[1][2]; }", "export function f(float4 p, int i) -> float { float4 v = p; return v[i]; }",
+                "struct S { int m; float k; }\nexport function f(int a) -> int { S s; s.m = a; S t = s; return t.m; }",
+                "export function f(int a) -> int { int[3] x; x[1] = a; int[3] y = x; return y[1]; }",
+                "export function f(float4 p) -> float4 { float4 v = p; float4 w = v; w.xy = v.zw; return w + v; }"):
+        extra.append((None, [], src))
+    progs = progs + extra
     jobs = []
     for k, (m, calls, text) in enumerate(progs):
         jobs.append(vmcases.job(text, calls[:1], optimize=False))
@@ -25,7 +46,7 @@ def run(ctx):
         prog = ircoq.program({"functions": r["ir"]["functions"], "globals": r["ir"]["globals"]})
         defs = "Definition P_%d : program := %s.\n" % (k, prog)
         expr = "wf_case P_%d" % k
-        if not j["opts"]["optimize"]:
+        if not j["opts"]["optimize"] and m is not None:
             defs += "Definition M_%d : module := %s.\n" % (k, nslgen.coq_module(m))
             expr = "(wf_case P_%d + 16 * ir_case M_%d P_%d)" % (k, k, k)
         # operand kinds as the dump saw them: an operand that is not a constant / instruction / block of the function
@@ -46,7 +67,7 @@ def run(ctx):
     ctx.cov["programs"] = len(progs)
     ctx.cov["rule"] = ("the C01 generator's programs (loops with break/continue, calls, recursion, arrays, structs, globals) compiled at both optimisation settings by the real compiler; "
                        "the dumped IR of every module is checked by the Coq function wf_program_b (unique references, block-local def-before-use, branch targets, call arity) whose soundness "
-                       "on the VM model is the theorem; the unoptimised IR is additionally compared for equality with the lowering model. Every (program, setting) pair is distinct and non-trivial.")
+                       "on the VM model is the theorem; the unoptimised IR is additionally compared for equality with the lowering model; plus vector / matrix programs, the store/load grid of C02 and aggregate copies followed by element, member and swizzle accesses (well-formedness of the dumped IR only). Every (program, setting) pair is distinct and non-trivial.")
     ctx.cov["samples"] = [{"source": j["src"][:400], "optimize": j["opts"]["optimize"]} for j, _ in meta[:2]]
     ctx.extra["input_distribution"] = {"modules_checked": len(meta), "functions": nfun, "instructions": ninstr, "ill_formed": len(bad_spec), "not_compiled": len(direct_bad)}
     ctx.extra["disagreements_checked"] = len(codes)
